@@ -357,9 +357,59 @@ def write_cases(draw):
     return case
 
 
-PARTS = {"read": check_read, "write": check_write}
+def in_place_cases():
+    for how in ("run", "result_of_writer", "run_of_writer", "partly_evaluated"):
+        for n in (1, 3, 40):
+            yield {"how": how, "rows": n}
+
+
+def check_in_place(case, rec):
+    """A table updated in place: the writer's output path is the file its (not yet evaluated) inputs are read from.
+    Whichever way the write is triggered, the file afterwards holds the listed results."""
+    from mpilot.program import EEMS_CSV_LIBRARIES, Program
+
+    tmp = tempfile.mkdtemp(prefix="vcheck-c17-")
+    try:
+        path = os.path.join(tmp, "table.csv")
+        a = [0.5 * k - 3 for k in range(case["rows"])]
+        b = [7.25 - k for k in range(case["rows"])]
+        with open(path, "w") as f:
+            f.write("a,b\n" + "".join("%r,%r\n" % (x, y) for x, y in zip(a, b)))
+        text = ('A = EEMSRead(InFileName = "table.csv", InFieldName = a)\nB = EEMSRead(InFileName = "table.csv", InFieldName = b)\n'
+                'S = Sum(InFieldNames = [A, B])\nW = EEMSWrite(OutFileName = "table.csv", OutFieldNames = [A, S])\n')
+        prog = Program.from_source(text, libraries=EEMS_CSV_LIBRARIES, working_dir=tmp)
+        sig = "in_place|%s" % case["how"]
+        rec.label("in_place:" + case["how"])
+        rec.nontrivial_case(case)
+        try:
+            if case["how"] == "run":
+                prog.run()
+            elif case["how"] == "result_of_writer":
+                prog.commands["W"].result
+            elif case["how"] == "run_of_writer":
+                prog.commands["W"].run()
+            else:
+                prog.commands["A"].result
+                prog.commands["W"].result
+        except Exception as exc:
+            return [Failure(sig + "|raises:%s" % A.exc_name(exc), sstr(exc)[:300])]
+        with open(path, newline="") as f:
+            rows = list(csv.reader(f))
+        want = [["A", "S"]] + [[x, x + y] for x, y in zip(a, b)]
+        got = [rows[0]] + [[float(c) for c in r] for r in rows[1:]] if rows else rows
+        if got != want:
+            return [Failure(sig + "|file_content", "file holds %r..., expected %r..." % (rows[:3], want[:3]))]
+        return []
+    finally:
+        shutil.rmtree(tmp, ignore_errors=True)
+
+
+PARTS = {"read": check_read, "write": check_write, "in_place": check_in_place}
 
 
 def run_shard(ctx, rec):
+    from ..core import drive_enum
+
+    drive_enum(ctx, rec, "in_place", in_place_cases(), check_in_place, exhaustive=True)
     drive(ctx, rec, "read", read_cases(), check_read, ctx.n(3000, 100000))
     drive(ctx, rec, "write", write_cases(), check_write, ctx.n(1500, 40000))
